@@ -141,3 +141,18 @@ Theorem C05_kp_snapshot_sound :
                   existsb (fun e => wants rq pf (fst (fst e)) (snd e) && noti_eqb n (snd e)) d = true).
 Proof. exact kp_snapshot_sound. Qed.
 Print Assumptions C05_kp_snapshot_sound.
+
+(** soundness of the weak specification applied to a walk that concurrent
+    writers overlapped (C05Check.kp_weak; harness families *-writers) *)
+Theorem C05_kp_weak_sound :
+  forall rq pf d0 writes d1 g,
+    kp_weak rq pf d0 writes d1 g = [] -> r_updates_only rq = false ->
+    (exists l, g = l ++ [OSync] /\ ~ In OSync l)
+    /\ (forall n, In n (upds_of g) ->
+          wants rq pf (g_target (n_prefix n)) n = true
+          /\ existsb (noti_eqb n) (map snd d0 ++ writes) = true)
+    /\ (forall e, In e d0 -> wants rq pf (fst (fst e)) (snd e) = true ->
+          existsb (dentry_eqb e) d1 = true ->
+          existsb (noti_eqb (snd e)) (before_sync g) = true).
+Proof. exact kp_weak_sound. Qed.
+Print Assumptions C05_kp_weak_sound.
